@@ -40,7 +40,9 @@ COMPONENTS_REAL = ["aiocoap.oscore.FilesystemSecurityContext (_load, _store, pos
                    "aiocoap.message (encode/decode)", "cryptography 38.0.4 (AEAD, HKDF)", "json"]
 COMPONENTS_STUB = ["file system (SimFS: open/io.open/os/tempfile seams of aiocoap.oscore)", "filelock (SimFS-aware)",
                    "secrets.token_bytes (seeded, never repeating)", "cbor2 (deterministic stand-in, validated "
-                   "against RFC 8613 appendix C)", "peer P (in-memory context of the same library, mirrored keys)"]
+                   "against RFC 8613 appendix C)", "peer P (in-memory context of the same library, mirrored keys)",
+                   "event loop of an incarnation in loop mode (plain asyncio loop, no I/O, no timers; runs queued "
+                   "callbacks only at the scenario's await points)"]
 ASSUMPTIONS = ["crash = process death between two file-system calls: completed calls survive, user-space buffers, "
                "descriptors and locks vanish, the lock file stays; a flush may be torn",
                "power loss (un-synced data lost) is an exploratory switch only and never gates",
